@@ -8,6 +8,10 @@
 #include <dlfcn.h>
 #include <pthread.h>
 #include <stdlib.h>
+#include <stdarg.h>
+#include <fcntl.h>
+#include <string.h>
+#include <unistd.h>
 #include <stdint.h>
 #include <time.h>
 #include <sys/time.h>
@@ -108,4 +112,57 @@ int pthread_create(pthread_t *thread, const pthread_attr_t *attr, void *(*start)
         }
     }
     return real_pthread_create(thread, attr, start, arg);
+}
+
+
+/* ------------------------------------------------------------------------------------------
+ * File-system seam (observation only). a5-rs touches no file today; a change that starts to
+ * persist something (an on-disk cache) does. Every open that can create or modify a file is
+ * appended to the log named by A5SIM_FS_LOG, so that the cold-world engine knows which files a
+ * process left behind and can damage them (torn / lost / corrupted write) before the next
+ * process starts. The call itself is passed through untouched. */
+static int (*real_open)(const char *, int, ...) = 0;
+static int (*real_open64)(const char *, int, ...) = 0;
+static int (*real_openat)(int, const char *, int, ...) = 0;
+
+static void a5sim_log_path(const char *path, int flags) {
+    if (!path || !(flags & (O_WRONLY | O_RDWR | O_CREAT | O_TRUNC | O_APPEND))) return;
+    const char *log = getenv("A5SIM_FS_LOG");
+    if (!log || !*log || strcmp(path, log) == 0) return;
+    if (!real_open) real_open = (int (*)(const char *, int, ...))dlsym(RTLD_NEXT, "open");
+    int fd = real_open(log, O_WRONLY | O_CREAT | O_APPEND, 0644);
+    if (fd < 0) return;
+    size_t n = strlen(path);
+    if (n < 4000) {
+        char buf[4096];
+        memcpy(buf, path, n);
+        buf[n] = '\n';
+        ssize_t w = write(fd, buf, n + 1);
+        (void)w;
+    }
+    close(fd);
+}
+
+int open(const char *path, int flags, ...) {
+    mode_t mode = 0;
+    if (flags & O_CREAT) { va_list ap; va_start(ap, flags); mode = (mode_t)va_arg(ap, int); va_end(ap); }
+    if (!real_open) real_open = (int (*)(const char *, int, ...))dlsym(RTLD_NEXT, "open");
+    a5sim_log_path(path, flags);
+    return real_open(path, flags, mode);
+}
+
+int open64(const char *path, int flags, ...) {
+    mode_t mode = 0;
+    if (flags & O_CREAT) { va_list ap; va_start(ap, flags); mode = (mode_t)va_arg(ap, int); va_end(ap); }
+    if (!real_open64) real_open64 = (int (*)(const char *, int, ...))dlsym(RTLD_NEXT, "open64");
+    a5sim_log_path(path, flags);
+    return real_open64(path, flags, mode);
+}
+
+int openat(int dirfd, const char *path, int flags, ...) {
+    mode_t mode = 0;
+    if (flags & O_CREAT) { va_list ap; va_start(ap, flags); mode = (mode_t)va_arg(ap, int); va_end(ap); }
+    if (!real_openat) real_openat = (int (*)(int, const char *, int, ...))dlsym(RTLD_NEXT, "openat");
+    if (path && path[0] == '/') a5sim_log_path(path, flags);
+    return real_openat(dirfd, path, flags, mode);
 }
